@@ -163,7 +163,68 @@ def _sink_returns(fn):
     return True
 
 
+def _simple(e):
+    """Evaluating e has no effect and cannot depend on when it happens
+    relative to a condition: names, attribute chains, constants."""
+    if isinstance(e, (ast.Name, ast.Constant)):
+        return True
+    if isinstance(e, ast.Attribute):
+        return _simple(e.value)
+    return False
+
+
+class _IfExpToIf(ast.NodeTransformer):
+    """``x = A if c else B`` / ``return A if c else B`` / ``f(A if c else B)``
+    as statements are the two-branch ``if`` they abbreviate."""
+
+    def _split(self, stmt, holder_get, holder_set):
+        v = holder_get(stmt)
+        if not isinstance(v, ast.IfExp):
+            return None
+        import copy
+        a, b = copy.deepcopy(stmt), copy.deepcopy(stmt)
+        holder_set(a, v.body)
+        holder_set(b, v.orelse)
+        return ast.copy_location(ast.If(test=v.test, body=[a], orelse=[b]),
+                                 stmt)
+
+    def visit_Assign(self, node):
+        self.generic_visit(node)
+        r = self._split(node, lambda s: s.value,
+                        lambda s, x: setattr(s, 'value', x))
+        return r or node
+
+    def visit_Return(self, node):
+        self.generic_visit(node)
+        if node.value is None:
+            return node
+        r = self._split(node, lambda s: s.value,
+                        lambda s, x: setattr(s, 'value', x))
+        return r or node
+
+    def visit_Expr(self, node):
+        self.generic_visit(node)
+        c = node.value
+        if not isinstance(c, ast.Call) or not _simple(c.func):
+            return node
+        idx = [i for i, a in enumerate(c.args) if isinstance(a, ast.IfExp)]
+        if len(idx) != 1 or not all(
+                _simple(a) for i, a in enumerate(c.args) if i != idx[0]) or \
+                not all(_simple(k.value) for k in c.keywords):
+            return node
+        i = idx[0]
+
+        def get(s):
+            return s.value.args[i]
+
+        def set_(s, x):
+            s.value.args[i] = x
+        r = self._split(node, get, set_)
+        return r or node
+
+
 def normalise(tree):
+    _IfExpToIf().visit(tree)
     _ConstRight().visit(tree)
     _NNF().visit(tree)
     _MergeIfs().visit(tree)
